@@ -127,17 +127,17 @@ func (e *Env) Failed() bool { return e.viol != nil }
 
 // Result is what one run produced.
 type Result struct {
-	Violation   *Violation     `json:"violation,omitempty"`
-	Trace       []string       `json:"trace"`
-	Digest      string         `json:"digest"`
-	Fingerprint uint64         `json:"fingerprint"`
-	Faults      map[string]int `json:"faults"`
-	Probes      map[string]int `json:"probes"`
+	Violation   *Violation      `json:"violation,omitempty"`
+	Trace       []string        `json:"trace"`
+	Digest      string          `json:"digest"`
+	Fingerprint uint64          `json:"fingerprint"`
+	Faults      map[string]int  `json:"faults"`
+	Probes      map[string]int  `json:"probes"`
 	Flags       map[string]bool `json:"flags"`
-	SimTimeNs   int64          `json:"sim_time_ns"`
-	Nontrivial  bool           `json:"nontrivial"`
-	Tape        []uint32       `json:"tape"`
-	Steps       int            `json:"steps"`
+	SimTimeNs   int64           `json:"sim_time_ns"`
+	Nontrivial  bool            `json:"nontrivial"`
+	Tape        []uint32        `json:"tape"`
+	Steps       int             `json:"steps"`
 }
 
 func (e *Env) result() *Result {
